@@ -37,7 +37,22 @@ func runLock(cfg *config) {
 	must("USE lk")
 	must("CREATE TABLE t (a int, b varchar(255))")
 	var armed, parked, writes int32
+	// inStmt: between the first lock acquisition of the statement being executed and its return;
+	// inside: page / header writes seen meanwhile (must be none, whatever the statement does with the lock)
+	var watch, inStmt, inside int32
 	storage.VerifSetHook(func(ev string, arg uint64) {
+		switch {
+		case ev == "txn.begin":
+			if atomic.LoadInt32(&watch) == 1 {
+				atomic.StoreInt32(&inStmt, 1)
+			}
+			return
+		case ev == "txn.end":
+			return
+		}
+		if (ev == "page.write" || ev == "hdr.write") && atomic.LoadInt32(&inStmt) == 1 {
+			atomic.AddInt32(&inside, 1)
+		}
 		switch {
 		case strings.HasPrefix(ev, "wal."):
 			if atomic.CompareAndSwapInt32(&armed, 1, 0) {
@@ -68,6 +83,39 @@ func runLock(cfg *config) {
 		atomic.StoreInt32(&armed, 0)
 		cfg.tr.Out("%s parked-writes=%d", res, atomic.LoadInt32(&writes))
 		cfg.st.Inc("parked." + kind)
+	}
+	// large statements started at every phase of the 100 ms timer: no page or header write may
+	// happen between the statement's first lock acquisition and its return
+	bulk := func(rows int, phase int) {
+		var vs []string
+		for k := 0; k < rows; k++ {
+			vs = append(vs, fmt.Sprintf("(%d, 'bulk row %d')", k, k))
+		}
+		q := "INSERT INTO t VALUES " + strings.Join(vs, ", ")
+		cfg.tr.Op("bulk %d", rows)
+		time.Sleep(time.Duration(phase) * time.Millisecond)
+		atomic.StoreInt32(&inside, 0)
+		atomic.StoreInt32(&watch, 1)
+		res := "ok"
+		wdog.Run(func() {
+			if pm := hx.Catch(func() {
+				if err := sess.ExecQuery(q); err != nil {
+					res = "err"
+				}
+			}); pm != "" {
+				res = "panic"
+			}
+		})
+		atomic.StoreInt32(&watch, 0)
+		atomic.StoreInt32(&inStmt, 0)
+		cfg.tr.Out("%s writes-inside-statement=%d", res, atomic.LoadInt32(&inside))
+		cfg.st.Inc("bulk")
+	}
+	for i := 0; i < 12*cfg.scale; i++ {
+		bulk([]int{1500, 2600, 900}[i%3], 37*i%100)
+		if i%3 == 2 {
+			must("DELETE FROM t")
+		}
 	}
 	rounds := 2 * cfg.scale
 	for i := 0; i < rounds; i++ {
